@@ -49,6 +49,12 @@ Pool == <<
     \* functions that are called like OTHER top-level items of the pool (a library, a contract): ordinary functions
     Ct("NameClash", <<FnDecl("function", "LibFn", VisAttr("external"), <<<<[present |-> TRUE, storage |-> "memory", name |-> "blob1"]>>, <<N("E.ArraySubscript", A0, <<<<U256>>, <<>>>>)>>>>, <<>>, TRUE, <<>>),
                       FnDecl("function", "FnOnly", VisAttr("public"), <<<<[present |-> TRUE, storage |-> "memory", name |-> "blob2"]>>, <<N("E.ArraySubscript", A0, <<<<U256>>, <<>>>>)>>>>, <<>>, TRUE, <<>>)>>),
+    \* a function over a signed type (last function of its item) and, in other items, divisions by a power of two OUTSIDE
+    \* any function (a state variable's initialiser, a file-level constant)
+    Ct("SignedFn", <<FnDecl("function", "neg", VisAttr("public"), <<<<[present |-> TRUE, storage |-> "", name |-> "sx"]>>, <<Ty("int", 256)>>>>, <<>>, TRUE,
+                           <<ExprStmt(Bin("E.Divide", Var("sx"), Num("4")))>>)>>),
+    Ct("HalfCap", <<StateVar("hc", U256, <<"public">>, <<Bin("E.Divide", Num("1000000"), Num("2"))>>), Fn("useHc", "external", <<>>)>>),
+    N("SUP.VariableDefinition", [name |-> "FILE_HALF", vattrs |-> <<"constant">>], <<<<U256>>, <<Bin("E.Divide", Num("4096"), Num("8"))>>>>),
     \* a loop without a condition, and a loop whose condition reads an array length, in different items
     Ct("Forever", <<Fn("spin", "public", <<N("S.For", A0, <<<<>>, <<>>, <<>>, <<Block(<<N("S.Break", A0, <<>>)>>)>>>>)>>)>>),
     Ct("LenLoop", <<StateVar("arr", N("E.ArraySubscript", A0, <<<<U256>>, <<>>>>), <<>>, <<>>),
